@@ -37,7 +37,8 @@ const (
 	CdOk
 	CdRevert
 	CdHookFail
-	CdOnwardUnknown
+	CdOnwardUnknown // agent.send to a chain without client (SendPacket hook failure)
+	CdAgent         // agent.send(refund user, receiver, chain, fee): multi-hop
 )
 
 type Bind struct {
@@ -61,7 +62,11 @@ type Op struct {
 	Cb   int    `json:"cb,omitempty"`
 	FTok int    `json:"ftok,omitempty"`
 	Fee  string `json:"fee,omitempty"`
-	Ref  int    `json:"ref,omitempty"` // R/A/F: id of the transfer op whose packet is meant
+	Ref  int    `json:"ref,omitempty"` // R/A/F: id of the transfer op whose packet is meant (>= 100000: the packet sent on by the receive of op id-100000)
+	ARef int    `json:"aref,omitempty"` // CdAgent: refund user, receiver holder, destination chain, fee amount
+	ARcv int    `json:"arcv,omitempty"`
+	ADst int    `json:"adst,omitempty"`
+	AFee string `json:"afee,omitempty"`
 }
 
 type Spec struct {
@@ -102,6 +107,22 @@ type ROp struct { // resolved operation in model terms
 	Fee  string `json:"fee"`
 	Src  int    `json:"src"`
 	Seq  uint64 `json:"seq"`
+	ARef int    `json:"aref"`
+	ARcv int    `json:"arcv"`
+	ADst int    `json:"adst"`
+	AFee string `json:"afee"`
+}
+
+// Onward: the packet a receive callback sent on (agent multi-hop), as emitted by the chain (EventSendPacket)
+type Onward struct {
+	Src int    `json:"src"`
+	Dst int    `json:"dst"`
+	Seq uint64 `json:"seq"`
+	Tok int    `json:"tok"` // token id on the sending chain
+	Ori int    `json:"ori"` // origin token id on the destination chain, -1 if none
+	Amt string `json:"amt"`
+	Rcv int    `json:"rcv"`
+	Ref int    `json:"ref"` // refund user given to the agent
 }
 
 type Step struct {
@@ -109,6 +130,7 @@ type Step struct {
 	Op    ROp        `json:"op"`
 	Class int        `json:"class"` // 0 accepted, 1 rejected
 	Code  uint64     `json:"code"`  // R: result code of the acknowledgement written
+	Onw   *Onward    `json:"onward,omitempty"`
 	Note  string     `json:"note,omitempty"`
 	Obs   []ChainObs `json:"obs"`
 }
@@ -132,6 +154,7 @@ type sentPacket struct {
 	acked  bool
 	broken bool // callback address without callback(): can never be acknowledged
 	stuck  bool // an acknowledgement of the received packet was rejected
+	aref   int  // CdAgent: refund user
 }
 
 type run struct {
@@ -166,6 +189,20 @@ func (r *run) holders() []int {
 		hs = append(hs, i)
 	}
 	return append(hs, HEndpoint, HPacket, HExecute, HAgent, HRelayer)
+}
+
+// holderCode: reverse of holderAddr for a receiver string of a packet
+func (r *run) holderCode(c int, s string) int {
+	if !common.IsHexAddress(s) {
+		return -1
+	}
+	a := common.HexToAddress(s)
+	for _, h := range r.holders() {
+		if r.holderAddr(c, h) == a {
+			return h
+		}
+	}
+	return -1
 }
 
 func spender(e int) common.Address { return common.BigToAddress(big.NewInt(int64(0xE0000000) + int64(e))) }
@@ -312,6 +349,13 @@ func (r *run) exec(op Op) *Step {
 		case CdOnwardUnknown:
 			d.ContractAddress = lower(agentAddr)
 			d.CallData, _ = agentABI.Pack("send", r.w.Users[0].Addr, lower(r.w.Users[0].Addr), "no-such-chain", big.NewInt(0))
+		case CdAgent:
+			rcv2 := "nothex"
+			if op.ARcv >= 0 {
+				rcv2 = lower(r.holderAddr(op.ADst%r.spec.NChains, op.ARcv))
+			}
+			d.ContractAddress = lower(agentAddr)
+			d.CallData, _ = agentABI.Pack("send", r.w.Users[op.ARef].Addr, rcv2, r.chainName(op.ADst), bigOf(op.AFee))
 		}
 		if op.Cb == 1 {
 			d.CallbackAddress = r.tokens[op.C][1] // a contract without callback()
@@ -320,9 +364,12 @@ func (r *run) exec(op Op) *Step {
 		res := r.w.CrossChainCall(ch, u, d, fee)
 		ps := SentPackets(toABCI(res.Events))
 		st.Op = ROp{K: "T", C: op.C, U: op.U, Tok: op.Tok, Amt: bigOf(op.Amt).String(), Dst: op.Dst, Rcv: op.Rcv, Cd: op.Cd, E: op.ID, Cb: op.Cb,
-			FTok: op.FTok, Fee: bigOf(op.Fee).String()}
+			FTok: op.FTok, Fee: bigOf(op.Fee).String(), ARef: op.ARef, ARcv: op.ARcv, ADst: op.ADst, AFee: bigOf(op.AFee).String()}
+		if op.Cd == CdOnwardUnknown {
+			st.Op.ARef, st.Op.ARcv, st.Op.ADst, st.Op.AFee = 0, 0, r.spec.NChains, "0"
+		}
 		if res.OK() && len(ps) == 1 {
-			sp := &sentPacket{opID: op.ID, p: ps[0], src: op.C, dst: op.Dst, cd: op.Cd, broken: op.Cb == 1}
+			sp := &sentPacket{opID: op.ID, p: ps[0], src: op.C, dst: op.Dst, cd: op.Cd, broken: op.Cb == 1, aref: st.Op.ARef}
 			r.sent = append(r.sent, sp)
 			r.byOp[op.ID] = sp
 			st.Op.Seq = ps[0].Sequence
@@ -359,6 +406,26 @@ func (r *run) exec(op Op) *Step {
 		st.Code = a.Code
 		sp.ack = acks[0]
 		sp.recvd = true
+		if on := SentPackets(res.Events); len(on) > 0 {
+			if len(on) > 1 {
+				st.Note = fmt.Sprintf("%d packets sent on", len(on))
+			}
+			o := on[0]
+			var td packettypes.TransferData
+			if err := td.ABIDecode(o.TransferData); err != nil {
+				panic(err)
+			}
+			osrc, odst := idx(r.w, o.SrcChain), idx(r.w, o.DstChain)
+			ow := &Onward{Src: osrc, Dst: odst, Seq: o.Sequence, Tok: r.tokenID(osrc, common.HexToAddress(td.Token)), Ori: -1,
+				Amt: new(big.Int).SetBytes(td.Amount).String(), Rcv: r.holderCode(odst, td.Receiver), Ref: sp.aref}
+			if td.OriToken != "" {
+				ow.Ori = r.tokenID(odst, common.HexToAddress(td.OriToken))
+			}
+			st.Onw = ow
+			nsp := &sentPacket{opID: 100000 + sp.opID, p: o, src: osrc, dst: odst, cd: CdNone}
+			r.sent = append(r.sent, nsp)
+			r.byOp[nsp.opID] = nsp
+		}
 	case "A":
 		sp := r.byOp[op.Ref]
 		if sp == nil {
